@@ -866,6 +866,7 @@ def render_c13(gi, case, rnd):
     conflict_free = not case.get("has_sr", True)
     rules = []
     forms = []
+    named = []
     for r in g["rules"]:
         syms = []
         for sy in r["rhs"]:
@@ -884,6 +885,11 @@ def render_c13(gi, case, rnd):
             forms.append("default")
         else:
             f = ("cc::FSK<%d>{}" % r["slot"]) if c13_skipctx(r) else ("cc::FC2<%d>{}" % r["slot"]) if c13_contextual(r) else ("hh::F<%d>{}" % r["slot"])
+            if r["slot"] % 4 == 1 or r["slot"] % 4 == 2:
+                # the functor is a named object (an lvalue: shared by rules, or a constant such as ftors::_e3) instead of a temporary
+                nm = "nf%d_%d" % (gi, len(named))
+                named.append("constexpr auto %s = %s;" % (nm, f))
+                f = nm
             op = ">>=" if c13_contextual(r) else ">="
             if prec is not None and rnd.random() < 0.5:
                 txt = "(%s %s %s)[%d]" % (base, op, f, prec)
@@ -892,6 +898,7 @@ def render_c13(gi, case, rnd):
                 txt = "%s%s %s %s" % (base, "[%d]" % prec if prec is not None else "", op, f)
                 forms.append("precedence-then-functor" if prec is not None else "plain")
         rules.append(txt)
+    out += named
     out.append("#define C%d_ARGS N%d, terms(%s), nterms(%s), rules(\\\n    %s)" % (gi, g["root"], ", ".join(terms), ", ".join("N%d" % i for i in range(nN)), ", \\\n    ".join(rules)))
     out.append("void run_all() {")
     out.append("  auto p = new parser(C%d_ARGS);" % gi)
@@ -1372,8 +1379,8 @@ def run(pid, tier, seed, work, viol_dir, known_ids=()):
                     lab("undeclared-" + m["removed"])
                     lab("compiler:" + cxx)
         samples = [{"grammar": m["grammar"], "removed_from_declaration": "%s %s" % (m["removed"], m["which"])} for m in meta[:5]]
-    if pid == "C07":
-        # the big grammar (state numbers beyond 8 bits): string_view_buffer, string_buffer and cstring_buffer must agree with the python reference and with each other
+    if pid in ("C07", "C01", "C02"):
+        # the big grammar (state numbers beyond 8 bits; C01: acceptance, C02: values, C07: the three buffer kinds): string_view_buffer, string_buffer and cstring_buffer must agree with the python reference and with each other
         bv, be, bnt, bnotes, blabels = run_big(pid, tier, seed, work, viol_dir)
         violations += bv; evaluations += be; notes += bnotes
         for x in bnt:
